@@ -907,4 +907,42 @@ example : ((protoPool.restore none).obj 1).fwd nx = none ∧ ((protoPool.restore
   decide
 
 
+/-! ### Clones (`copy.deepcopy`, `clone_traits`) — known finding `clone-localises-linked-prototype`
+
+`Pool.cloneAll` transcribes `clone_traits` / `copy_traits`: the clone is built by ASSIGNING every
+deferring attribute the value read through the original.  The property's clause 'a PrototypedFrom
+attribute reads as the prototype's value until it is assigned locally' would need the clone of a linked
+attribute to be linked; the code does not do that. -/
+
+/-- Full-strength clause for clones: a PrototypedFrom attribute that is linked in a pool satisfying the
+invariants is linked in the deep copy of the pool. -/
+def CloneKeepsLinks : Prop :=
+  ∀ (p : Pool), Inv p → ∀ (o : ObjId) (n : Name) (d : DelegInfo),
+    (p.obj o).cls.trait n = .defer d → d.modify = false → (p.obj o).dict n = none →
+    ((p.cloneAll idEnv).obj o).dict n = none ∧ ((p.cloneAll idEnv).obj o).fwd n = some ((p.cloneAll idEnv).obj o).deleg
+
+/-- The pool of the witness: `o0.x = PrototypedFrom('d')` linked to `o1.x` (typed, default 3). -/
+def clonePool : Pool := runPool idEnv 0 (mkPool [clsP, clsT]) [.swap 0 (some 1)]
+
+theorem clonePool_inv : Inv clonePool :=
+  runPool_inv idEnv _ 0 _ (mkPool_inv _ (by
+    intro c hc
+    simp only [List.mem_cons, List.not_mem_nil, or_false] at hc
+    rcases hc with rfl | rfl <;> (unfold ClsWF; decide)))
+
+/-- **The code does not satisfy it** (known finding `clone-localises-linked-prototype`; witness replayed by the
+corpus case `same-P … sw 1 2;sw 0 1;cp A d;st 2 x 5;rd 0 x`, one level more): the clone of the linked `o0.x` holds the local value 3 and
+has no forwarder, so it no longer follows `o1.x`. -/
+theorem C11_clone_localises : ¬ CloneKeepsLinks := by
+  intro h
+  have := (h clonePool clonePool_inv 0 nx (mkDelegate [] false) (by decide) (by decide) (by decide)).1
+  revert this
+  decide
+
+/-- What the clone is instead: local value = the value read through the original, forwarder gone; a later
+change of the prototype is not seen through it. -/
+example : ((clonePool.cloneAll idEnv).obj 0).dict nx = some 3 ∧ ((clonePool.cloneAll idEnv).obj 0).fwd nx = none
+    ∧ read (step idEnv 1 (clonePool.cloneAll idEnv) (.set 1 nx 5)).pool 3 0 nx = .ok 3 := by decide
+
+
 end TraitsVerif.Props.C11
